@@ -357,6 +357,15 @@ class KeyedSet(Generic[ItemType, KeyType], MutableSet, KeyedBase):  # pylint: di
         except TypeError:
             pass
 
+    def _from_iterable(self, iterable):  # pylint: disable=arguments-differ
+        # Used by the `collections.abc.Set` operator mixins to build results;
+        # these must retain the key function and options of this instance.
+        return type(self)(
+            iterable,
+            key=self._key,
+            enforce_item_equivalence=self.enforce_item_equivalence,
+        )
+
     # Magic methods
 
     def __eq__(self, other):
